@@ -82,6 +82,11 @@ package store
 //@   requires m != nil && m.clk != nil && op != nil
 //@   modifies *
 //@   assert only_ready_files: at FileOp.DeleteFile#0 :: ready && !lowThresholdBreached
+// ... and for every such file: the pass looks at every listed name (the loop ends only when the
+// list is exhausted) and, by the time it accounts for a file's size, has asked for the deletion of
+// that file if it was ready and the threshold not reached.
+//@   loop 0 visits_all
+//@   assert every_ready_file: at FileInfo.Size#0 :: ready && !lowThresholdBreached ==> (name in op.delreq)
 
 // cleanup picks the pass: a normal pass (disk usage below the aggressive threshold) runs the
 // TTI/TTL sweep with the configured TTL and no lower usage threshold - so it removes every idle
